@@ -269,7 +269,15 @@ class ActivityAnalyzer(transformer.Base):
 
   def visit_arg(self, node):
     """Mark function parameter (ast.arg) in scope. Requires QnResolver has run."""
-    node = self.generic_visit(node)
+    if self._track_annotations_only:
+      # Visiting the signature on behalf of the defining scope: only the
+      # annotation expressions are evaluated there. The parameter itself is
+      # declared in the function's own scope.
+      if node.annotation is not None:
+        node.annotation = self._process_annotation(node.annotation)
+      return node
+    # Declaration pass, in the function's own scope. The annotation is not
+    # visited again: it is evaluated in the defining scope.
     if not anno.hasanno(node, anno.Basic.QN):
       return node
     qn = anno.getanno(node, anno.Basic.QN)
